@@ -11,7 +11,13 @@ expected order by SORTING with the documented key (wrappers first; tryfirst < no
 in the reading class' __mro__; latest registration first), the expected value by folding the wrappers over the first
 plain result that is not None, and the expected invocations (each wrapper entered exactly once per object, receiving
 the value of the rest of the chain of that object's class; plain implementations consulted in order up to the first
-result).
+result).  Every successful add_function call is an entry of the log of its own, also when its function object is
+registered already (a python function cannot know through which registration it is called: invocation traces name
+function objects, the oracle and the comparison with the model map registrations to them).
+
+Calls into pyroll go through Real.pyroll: an exception that comes out of pyroll is data (answer `raised <Type>` = broken
+correspondence, and a `raises-<op>` verdict of the oracle where the property demands the operation to work), never a
+crash of the harness; exceptions of the harness' own code propagate.
 """
 from . import common  # noqa: F401  (silences the pyroll loggers)
 
@@ -23,7 +29,11 @@ RULE = ("random histories (quick <= 25, thorough <= 60 ops) over hierarchies of 
         "diamonds, random multiple inheritance accepted by C3, several roots, classes defined late, nested qualnames); the "
         "hook is defined in a class body and/or added by extension_class, at a root, in the middle, twice or never; "
         "registrations of all tier x wrapper x owner combinations (add_function, decorator call, tryfirst+trylast, "
-        "re-registration of a HookFunction object), removals through the owner, through `with`, through another class "
+        "re-registration of a HookFunction object), the SAME python function object registered several times (stream "
+        "`same`, dense in an eighth of the histories: on the same class after other registrations, on a subclass while a "
+        "base has it and vice versa, same or other tier, directly / as decorator / through the HookFunction of the earlier "
+        "registration, as temporary `with` registration around reads, with one of the two registrations removed "
+        "afterwards), removals through the owner, through `with`, through another class "
         "and repeated; class and instance accesses interleaved everywhere (they create the per-subclass Hook objects); "
         "implementations are data: constant / None / read the hook on a fresh instance of another class (per-object "
         "re-entrancy), cooperating wrapper x -> 10x+k with or without default, declining wrapper (at most 4 wrappers per "
@@ -55,7 +65,11 @@ def _imports():
 #   ("tc", c)                                    getattr(K<c>, "h", None)
 #   ("ti", c)                                    i = K<c>(); i.__dict__["h"] = 1; i.h      (access through an instance)
 #   ("add", label, c, tier, w01, body, how)      hf = K<c>.h.add_function(f, ...)   how: call | deco | both(tryfirst+trylast)
-#   ("readd", label, c, tier, src_label)         K<c>.h.add_function(hf[src_label], ...)  (a HookFunction object)
+#   ("readd", label, c, tier, src_label)         K<c>.h.add_function(HookFunction(copy of f[src_label]), ...)  (an object
+#                                                of type HookFunction is unwrapped; the function itself is a fresh copy)
+#   ("same", label, c, tier, src_label, how)     the SAME python function object as registration src_label registered once
+#                                                more: how = call | deco | hf (the HookFunction object returned by the
+#                                                earlier registration is handed to add_function)
 #   ("rm", c, label, how)                        K<c>.h.remove_function(hf)   how: call | with (c is ignored: hf.hook)
 #   ("fns", c)                                   K<c>.h.functions
 #   ("read", c)                                  K<c>().h
@@ -93,9 +107,12 @@ class Real:
         self.Hook, self.HookHost, self.HookFunction = _imports()
         self.classes = {}          # c -> class
         self.order = []            # class numbers in creation order
-        self.hfs = []              # id -> HookFunction
-        self.hf_id = {}            # id(HookFunction) -> id
-        self.meta = []             # id -> dict(cls, tier, w, body, seq, live)   (the oracle's registration log)
+        self.hfs = []              # id -> what add_function returned for registration id
+        self.hf_id = {}            # id(HookFunction) -> id of the FIRST registration that returned this object
+        self.meta = []             # id -> dict(cls, tier, w, body, seq, live, fid)   (the oracle's registration log)
+        self.funcs = {}            # fid -> python function object (fid = id of the first registration of that object)
+        self.raised = []           # (op name, exception text) of exceptions that came out of pyroll
+        self.problems_now = []     # oracle verdicts produced while applying an op: (key, what)
         self.label = {}            # label -> id
         self.trace = []            # events of the current read: (kind, n, instance index, extra)
         self.insts = []            # instances of the current read (kept alive: identity = index)
@@ -118,21 +135,23 @@ class Real:
         if len(self.trace) > TRACE_LIMIT:
             raise _Runaway()
 
-    def make_function(self, rid, body):
+    def make_function(self, fid, body):
+        """a python function object; it reports itself as `fid` (a function object cannot know through which of its
+        registrations it is being called: the trace is a trace of FUNCTIONS, `fid_of` maps registrations to them)"""
         R = self
         kind = body[0]
         if kind == "ret":
             v = body[1]
 
             def plain(self):
-                R.record("call", rid, R.inst_index(self), None)
+                R.record("call", fid, R.inst_index(self), None)
                 return v
             return plain
         if kind == "del":
             c = body[1]
 
             def delegating(self):
-                R.record("call", rid, R.inst_index(self), None)
+                R.record("call", fid, R.inst_index(self), None)
                 if R.depth > 0:
                     return None
                 R.depth += 1
@@ -151,19 +170,51 @@ class Real:
 
             def wrapping(self, cycle):
                 if cycle:
-                    R.record("cyc", rid, R.inst_index(self), None)
+                    R.record("cyc", fid, R.inst_index(self), None)
                     return None
-                R.record("enter", rid, R.inst_index(self), None)
+                R.record("enter", fid, R.inst_index(self), None)
                 x = yield
-                R.record("exit", rid, R.inst_index(self), x)
+                if x is not None and type(x) is not int:
+                    # whatever the implementation under test sends in: recorded (the oracle compares it with the value
+                    # the rest of the chain demands), never an exception of the harness
+                    R.record("exit", fid, R.inst_index(self), "<%s>" % type(x).__name__)
+                    return d
+                R.record("exit", fid, R.inst_index(self), x)
                 return 10 * x + k if x is not None else d
             return wrapping
 
         def declining(self):
-            R.record("decl", rid, R.inst_index(self), None)
+            R.record("decl", fid, R.inst_index(self), None)
             return None
             yield  # noqa  (makes it a generator function: returns before its yield)
         return declining
+
+    def fid_of(self, rid):
+        return self.meta[rid]["fid"] if 0 <= rid < len(self.meta) else rid
+
+    def pyroll(self, opname, thunk, attr=False, judge=True):
+        """run a call into the implementation under test.  Exceptions that come out of pyroll (a pyroll frame in the
+        traceback) are DATA: returned as ("raised", text) and judged by the oracle / the correspondence; exceptions of
+        the harness' own code propagate (infrastructure errors)."""
+        import traceback
+        try:
+            return ("ok", thunk())
+        except Exception as ex:       # _Runaway is a BaseException and passes through
+            if attr and isinstance(ex, AttributeError):
+                return ("attr", None)     # the documented answer: no such hook / no value
+            e, seen = ex, set()
+            while e is not None and id(e) not in seen:
+                seen.add(id(e))
+                if any("/pyroll/" in f.filename for f in traceback.extract_tb(e.__traceback__)):
+                    text = f"raised {type(ex).__name__}"
+                    self.raised.append((opname, f"{type(ex).__name__}: {str(ex)[:120]}"))
+                    if judge:
+                        # the property quantifies over every history of these operations: none of them may fail
+                        self.problems_now.append((f"raises-{opname}", f"`{opname}` raised {self.raised[-1][1]} "
+                                                  f"(the operation is part of every history the property speaks about)"))
+                    return ("raised", text)
+                e = e.__cause__ or e.__context__
+            raise
 
     # ---- operations --------------------------------------------------------------------------------------------------
     def mro_of(self, c):
@@ -182,8 +233,8 @@ class Real:
             if c not in self.classes or (body[0] == "del" and body[1] not in self.classes):
                 return None
             return f"add {c} {'first' if tier == 'both' else tier} {w} {body_tokens(body)}"
-        if n == "readd":
-            _, label, c, tier, src = op
+        if n in ("readd", "same"):
+            label, c, tier, src = op[1:5]
             if c not in self.classes or src not in self.label:
                 return None
             m = self.meta[self.label[src]]
@@ -207,10 +258,15 @@ class Real:
             _, c, bases, hook, nested = op
             if c in self.classes or any(b not in self.classes for b in bases):
                 return None
-            dct = {"h": Hook[float]()} if hook else {}
-            if nested:
-                dct["__qualname__"] = f"Outer{c}.K{c}"
-            cls = type(f"K{c}", tuple(self.classes[b] for b in bases) or (HookHost,), dct)
+
+            def make():
+                dct = {"h": Hook[float]()} if hook else {}
+                if nested:
+                    dct["__qualname__"] = f"Outer{c}.K{c}"
+                return type(f"K{c}", tuple(self.classes[b] for b in bases) or (HookHost,), dct)
+            st, cls = self.pyroll("class", make)
+            if st == "raised":
+                return None      # the class does not exist: later ops on it are skipped on both sides (self.raised is judged)
             self.classes[c] = cls
             self.order.append(c)
             return f"class {c} {ids_str(self.mro_of(c))} {hook}", "ok"
@@ -218,31 +274,42 @@ class Real:
         if line is None:
             return None
         if n == "ext":
-            src = type("Src", (), {"h": Hook[float]()})
-            self.classes[op[1]].extension_class(src)
-            return line, "ok"
+            st, r = self.pyroll("ext", lambda: self.classes[op[1]].extension_class(type("Src", (), {"h": Hook[float]()})))
+            return line, ("ok" if st == "ok" else r)
         if n == "tc":
-            getattr(self.classes[op[1]], "h", None)
-            return line, "ok"
+            st, r = self.pyroll("tc", lambda: getattr(self.classes[op[1]], "h", None))
+            return line, ("ok" if st == "ok" else r)
         if n == "ti":
-            inst = self.classes[op[1]]()
-            inst.__dict__["h"] = 1
-            assert inst.h == 1
-            return line, "ok"
-        if n in ("add", "readd"):
+            def through_instance():
+                inst = self.classes[op[1]]()
+                inst.__dict__["h"] = 1
+                return inst.h
+            st, r = self.pyroll("ti", through_instance, attr=True)
+            # (the explicit value itself is not part of this property: a different value only breaks the correspondence)
+            return line, ("ok" if (st, r) == ("ok", 1) else r if st == "raised" else f"explicit-value-lost {st}")
+        if n in ("add", "readd", "same"):
+            rid = len(self.meta)
             if n == "add":
                 _, label, c, tier, w, body, how = op
-                rid = len(self.hfs)
-                func = self.make_function(rid, body)
-            else:
+                fid = rid
+                func = self.funcs[fid] = self.make_function(fid, body)
+            elif n == "readd":
                 _, label, c, tier, src = op
                 how = "call"
                 m = self.meta[self.label[src]]
                 w, body = m["w"], m["body"]
-                rid = len(self.hfs)
-                # the same python function registered again (through its HookFunction object): it must report the new id
-                func_new = self.make_function(rid, body)
-                func = self.HookFunction(func_new, None, wrapper=bool(w))
+                fid = rid
+                # an object of type HookFunction handed to add_function (it is unwrapped); the function is a fresh copy
+                self.funcs[fid] = self.make_function(fid, body)
+                func = self.HookFunction(self.funcs[fid], None, wrapper=bool(w))
+            else:
+                _, label, c, tier, src, how = op
+                m = self.meta[self.label[src]]
+                w, body = m["w"], m["body"]
+                fid = m["fid"]
+                # the SAME function object once more (directly, or through the HookFunction of the earlier registration)
+                func = self.hfs[self.label[src]] if how == "hf" and isinstance(self.hfs[self.label[src]],
+                                                                              self.HookFunction) else self.funcs[fid]
             kw = {}
             if tier in ("first", "both"):
                 kw["tryfirst"] = True
@@ -250,38 +317,57 @@ class Real:
                 kw["trylast"] = True
             if w:
                 kw["wrapper"] = True
-            try:
-                hook = getattr(self.classes[c], "h")
-            except AttributeError:
+            st, hook = self.pyroll("add", lambda: getattr(self.classes[c], "h"), attr=True)
+            if st == "raised":
+                return line, hook
+            if st == "attr" or not isinstance(hook, Hook):
                 return line, "AttributeError"
-            if not isinstance(hook, Hook):
-                return line, "AttributeError"
+            # (tryfirst AND trylast is the one registration the documentation does not define: refusing it is no violation)
             if how == "deco":
-                hf = hook(**kw)(func) if kw else hook(func)
+                st, hf = self.pyroll("add", lambda: hook(**kw)(func) if kw else hook(func), judge=tier != "both")
             else:
-                hf = hook.add_function(func, **kw)
+                st, hf = self.pyroll("add", lambda: hook.add_function(func, **kw), judge=tier != "both")
+            if st == "raised":
+                return line, hf
+            # the registration is an entry of the log whatever add_function returned (an object it returned before keeps
+            # the id of its first registration: Hook.functions / the stores are lists of these objects)
             self.hfs.append(hf)
-            self.hf_id[id(hf)] = rid
+            self.hf_id.setdefault(id(hf), rid)
             self.label[label] = rid
             self.seq += 1
             self.meta.append({"cls": c, "tier": "first" if tier == "both" else tier, "w": int(bool(w)), "body": body,
-                              "seq": self.seq, "live": True})
+                              "seq": self.seq, "live": True, "fid": fid})
             return line, f"ok {rid}"
         if n == "rm":
             _, c, label, how = op
             rid = self.label[label]
             hf = self.hfs[rid]
+            through_owner = True
+            judge = self.meta[rid]["live"]     # removing twice / through a class that does not own it: may be refused
+            if not isinstance(hf, self.HookFunction):
+                # add_function handed out something that is not the documented handle of the registration
+                if judge and (how == "with" or self.meta[rid]["cls"] == c):
+                    self.problems_now.append(("no-removal-handle", f"add_function returned {type(hf).__name__} for "
+                                              f"registration {rid}: it cannot be removed (`with` / remove_function)"))
+                return line, "no-handle"
             if how == "with":
                 c = self.meta[rid]["cls"]
-                with hf:
-                    pass
+
+                def leave():
+                    with hf:
+                        pass
+                st, r = self.pyroll("rm", leave, judge=judge)
             else:
-                try:
-                    hook = getattr(self.classes[c], "h")
-                except AttributeError:
+                through_owner = self.meta[rid]["cls"] == c
+                st, hook = self.pyroll("rm", lambda: getattr(self.classes[c], "h"), attr=True)
+                if st == "raised":
+                    return line, hook
+                if st == "attr":
                     return line, "AttributeError"
-                hook.remove_function(hf)
-            if self.meta[rid]["cls"] == c:
+                st, r = self.pyroll("rm", lambda: hook.remove_function(hf), judge=judge and through_owner)
+            if st == "raised":
+                return line, r
+            if through_owner:
                 self.meta[rid]["live"] = False
             return line, "ok"
         if n == "fns":
@@ -291,27 +377,46 @@ class Real:
         raise ValueError(op)
 
     def functions_ids(self, c):
-        try:
-            hook = getattr(self.classes[c], "h")
-        except AttributeError:
+        """ids of Hook.functions of K<c>; None = AttributeError (no such hook); a string = it raised"""
+        st, hook = self.pyroll("fns", lambda: getattr(self.classes[c], "h"), attr=True)
+        if st == "attr":
             return None
-        return [self.hf_id.get(id(f), -1) for f in hook.functions]
+        if st == "raised":
+            return hook
+        st, fs = self.pyroll("fns", lambda: list(hook.functions))
+        if st == "raised":
+            return fs
+        return [self.hf_id.get(id(f), -1) for f in fs]
+
+    @staticmethod
+    def functions_ids_of_answer(ans):
+        if ans == "AttributeError":
+            return None
+        if ans.startswith("raised"):
+            return ans
+        return [] if ans == "-" else [int(x) for x in ans.split(",")]
 
     def functions_answer(self, c):
         ids = self.functions_ids(c)
-        return "AttributeError" if ids is None else ids_str(ids)
+        return "AttributeError" if ids is None else ids if isinstance(ids, str) else ids_str(ids)
 
     def read(self, c):
         self.trace = []
         self.insts = []
         self.depth = 0
         self.runaway = False
-        inst = self.classes[c]()
-        self.insts.append(inst)
+        self.read_raised = None
+
+        def do():
+            inst = self.classes[c]()
+            self.insts.append(inst)
+            return inst.h
         try:
-            v = inst.h
-        except AttributeError:
-            v = None
+            st, v = self.pyroll("read", do, attr=True, judge=False)    # judged by check_read
+            if st == "attr":
+                v = None
+            elif st == "raised":
+                self.read_raised, v = self.raised[-1][1], None
         except _Runaway:
             v = None
             self.runaway = True
@@ -322,7 +427,11 @@ class Real:
         self.last_read = (v, tr)
         if self.runaway:
             return "runaway"
+        if self.read_raised:
+            return "raised " + self.read_raised.split(":")[0]
         return " ".join(["_" if v is None else str(v)] + [f"{k}{n}" for (k, n, _, _) in tr])
+
+    STORES = ("_first_wrappers", "_wrappers", "_last_wrappers", "_first_functions", "_functions", "_last_functions")
 
     def dump(self):
         n = (max(self.classes) + 1) if self.classes else 0
@@ -332,9 +441,9 @@ class Real:
             if h is None:
                 out.append("0|")
             else:
-                stores = [h._first_wrappers, h._wrappers, h._last_wrappers, h._first_functions, h._functions,
-                          h._last_functions]
-                out.append("1|" + ";".join(ids_str([self.hf_id.get(id(f), -1) for f in s]) for s in stores))
+                stores = [getattr(h, a, None) for a in self.STORES]     # the anchored state (properties.jsonl)
+                out.append("1|" + ";".join("?" if s_ is None else ids_str([self.hf_id.get(id(f), -1) for f in s_])
+                                           for s_ in stores))
         return f"obs {n}", " ".join(out)
 
     # ---- the independent oracle: the property as stated -----------------------------------------------------------
@@ -351,6 +460,8 @@ class Real:
     def classify_order(self, c, got, where):
         """compare an observed id list with the sorted log; returns [(key, what)]"""
         exp = [rid for rid, _ in self.expected_chain(c)]
+        if isinstance(got, str):
+            return [("raises-fns", f"{where} of K{c} {got}; the registrations demand {exp}")]
         if got == exp:
             return []
         extra = [r for r in got if r not in exp]
@@ -365,15 +476,20 @@ class Real:
             return [("scope-extra", what + f" (registration {r} belongs to K{self.meta[r]['cls']}, which is not "
                      f"K{c} or one of its bases)")]
         if missing:
-            return [("scope-missing", what + f" (registration {missing[0]} of base/own class "
-                     f"K{self.meta[missing[0]]['cls']} does not take part)")]
+            r = missing[0]
+            twins = [q for q in range(len(self.meta)) if q != r and self.meta[q]["fid"] == self.meta[r]["fid"]]
+            return [("scope-missing", what + f" (registration {r} of base/own class "
+                     f"K{self.meta[r]['cls']} does not take part" +
+                     (f"; its function object is also registered as {twins}: every registration is an entry of its own"
+                      if twins else "") + ")")]
         if len(set(got)) != len(got):
             return [("order-duplicate", what)]
         return [("order", what)]
 
     def expected_eval(self, c, depth, out):
         """value demanded for a read on a fresh instance of K<c>; appends per-object expectations to `out`:
-        dict(cls, enters, received, calls, decls, ok) in the order the objects are created"""
+        dict(cls, chain, enters, received [(rid, value) in the order the wrappers are left], calls, decls, ok) in the
+        order the objects are created (all lists are lists of REGISTRATIONS; compare through fid_of)"""
         chain = self.expected_chain(c) if c in self.classes else []
         me = {"cls": c, "chain": [rid for rid, _ in chain]}
         out.append(me)
@@ -397,9 +513,9 @@ class Real:
             if v is not None:
                 break
         me["calls"] = calls
-        received = {}
+        received = []
         for rid, m in reversed(ws):
-            received[rid] = v
+            received.append((rid, v))
             v = 10 * v + m["body"][1] if v is not None else m["body"][2]
             if v is None:
                 ok = False          # a wrapper that wraps but answers None: outside the documented protocol
@@ -407,6 +523,9 @@ class Real:
         me["received"] = received
         me["ok"] = ok
         return v
+
+    def fids(self, rids):
+        return [self.fid_of(r) for r in rids]
 
     def check_read(self, c, v, tr):
         objs = []
@@ -417,10 +536,14 @@ class Real:
                 return [("wrapper-not-once", f"reading K{c}().h made more than {TRACE_LIMIT} invocations; the chain "
                          f"{objs[0]['chain']} demands each wrapper once and each plain implementation at most once")]
             return [("runaway-outside-protocol", "")]      # not a violation: see run_history
+        if getattr(self, "read_raised", None):
+            return [("raises-read", f"reading K{c}().h raised {self.read_raised}; the registrations demand the value "
+                     f"{exp_v} (chain {objs[0]['chain']})")]
         if v != exp_v:
             probs.append(("value", f"K{c}().h = {v}, the registrations demand {exp_v} "
                           f"(chain {objs[0]['chain']})"))
-        # scope: whatever ran on an object belongs to the chain of that object's class
+        # scope: whatever ran on an object belongs to the chain of that object's class.  The trace names FUNCTION objects
+        # (f<n> = the function first registered as registration n); a function takes part through each of its registrations.
         by_inst = {}
         inst_cls = {0: c}
         for (k, n, i, x) in tr:
@@ -433,11 +556,14 @@ class Real:
                 probs.append(("trace-unknown-object", f"an implementation ran on an object the read did not create"))
                 continue
             chain = [rid for rid, _ in self.expected_chain(inst_cls[i])]
+            chain_f = set(self.fids(chain))
             for (k, n, x) in evs:
-                if n not in chain:
-                    key = "removed-consulted" if not self.meta[n]["live"] else "scope-extra"
-                    probs.append((key, f"reading K{c}().h: registration {n} (owner K{self.meta[n]['cls']}) was "
-                                  f"invoked on an instance of K{inst_cls[i]} whose chain is {chain}"))
+                if n not in chain_f:
+                    regs = [r for r in range(len(self.meta)) if self.meta[r]["fid"] == n]
+                    key = "removed-consulted" if not any(self.meta[r]["live"] for r in regs) else "scope-extra"
+                    probs.append((key, f"reading K{c}().h: function f{n} (registrations "
+                                  f"{[(r, 'K%d' % self.meta[r]['cls'], 'live' if self.meta[r]['live'] else 'removed') for r in regs]}) "
+                                  f"was invoked on an instance of K{inst_cls[i]} whose chain is {chain}"))
                     break
         self.last_protocol_ok = all(o["ok"] for o in objs)
         if probs:
@@ -456,17 +582,22 @@ class Real:
             exits = [(n, x) for (k, n, x) in evs if k == "exit"]
             calls = [n for (k, n, x) in evs if k == "call"]
             decls = [n for (k, n, x) in evs if k == "decl"]
+            e_enters = self.fids(o["enters"])
+            e_exits = [(self.fid_of(r), x) for r, x in o["received"]]
             who = f"reading K{c}().h, object #{i} (K{o['cls']})"
-            if enters != o["enters"] or [n for n, _ in exits] != o["enters"][::-1]:
-                key = "wrapper-not-once" if sorted(enters) != sorted(o["enters"]) else "wrapper-order"
-                probs.append((key, f"{who}: wrappers entered {enters} / left {[n for n, _ in exits]}, "
-                              f"expected each of {o['enters']} exactly once in this order"))
-            elif any(o["received"][n] != x for n, x in exits):
-                probs.append(("wrapper-inner-value", f"{who}: wrappers received {exits}, expected {o['received']}"))
-            if calls != o["calls"]:
-                probs.append(("plain-order", f"{who}: plain implementations consulted {calls}, expected {o['calls']}"))
-            if sorted(set(decls)) != sorted(o["decls"]) and o["enters"] == enters:
-                probs.append(("wrapper-decline", f"{who}: declining wrappers consulted {decls}, expected {o['decls']}"))
+            if enters != e_enters or [n for n, _ in exits] != e_enters[::-1]:
+                key = "wrapper-not-once" if sorted(enters) != sorted(e_enters) else "wrapper-order"
+                probs.append((key, f"{who}: wrapper functions entered {enters} / left {[n for n, _ in exits]}, "
+                              f"expected one application per registration {o['enters']} (functions {e_enters}) in this "
+                              f"order"))
+            elif exits != e_exits:
+                probs.append(("wrapper-inner-value", f"{who}: wrappers received {exits}, expected {e_exits}"))
+            if calls != self.fids(o["calls"]):
+                probs.append(("plain-order", f"{who}: plain implementations consulted {calls}, expected registrations "
+                              f"{o['calls']} (functions {self.fids(o['calls'])})"))
+            if sorted(set(decls)) != sorted(set(self.fids(o["decls"]))) and e_enters == enters:
+                probs.append(("wrapper-decline", f"{who}: declining wrappers consulted {decls}, expected "
+                              f"{self.fids(o['decls'])}"))
         return probs
 
 
@@ -474,13 +605,19 @@ class Real:
 # running one history
 # ---------------------------------------------------------------------------------------------------------------
 def run_history(ops, with_oracle=True, sweep=True):
-    """returns dict(lines, answers [(line, answer, obs_line, obs)], problems [(op index, key, what)], stats)"""
+    """returns dict(rows [(op index, line, answer, obs_line, obs)], problems [(op index, key, what)], stats, fid_of)"""
     real = Real()
     rows = []
     problems = []
     stats = {"maxchain": 0, "ops": []}
+
+    def result():
+        return {"rows": rows, "problems": problems, "stats": stats, "fid_of": [m["fid"] for m in real.meta]}
     for i, op in enumerate(ops):
+        real.problems_now = []
         r = real.apply(op)
+        if with_oracle:
+            problems.extend((i, k, w) for (k, w) in real.problems_now)
         if r is None:
             continue
         line, ans = r
@@ -490,16 +627,27 @@ def run_history(ops, with_oracle=True, sweep=True):
             pr = real.check_read(op[1], None, []) if with_oracle else []
             problems.extend((i, k, w) for (k, w) in pr if k != "runaway-outside-protocol")
             stats["runaway"] = True
-            return {"rows": rows, "problems": problems, "stats": stats}
+            return result()
         obs_line, obs = real.dump()
         rows.append((i, line, ans, obs_line, obs))
         stats["ops"].append(op[0])
+        if op[0] == "same":
+            m = real.meta[-1] if ans.startswith("ok ") else None
+            if m is not None:
+                src = real.meta[real.label[op[4]]]
+                stats.setdefault("same", []).append(
+                    ("same-class" if src["cls"] == m["cls"] else "base-has-it" if issubclass(
+                        real.classes[m["cls"]], real.classes[src["cls"]]) else "subclass-has-it" if issubclass(
+                        real.classes[src["cls"]], real.classes[m["cls"]]) else "unrelated-class") + "/" +
+                    ("same-tier" if src["tier"] == m["tier"] else "other-tier") + "/" +
+                    ("first-live" if src["live"] else "first-removed"))
         if not with_oracle:
             continue
         if op[0] == "fns":
-            ids = None if ans == "AttributeError" else ([] if ans == "-" else [int(x) for x in ans.split(",")])
-            if ids is not None:
+            ids = real.functions_ids_of_answer(ans)
+            if isinstance(ids, list):
                 stats["maxchain"] = max(stats["maxchain"], len(ids))
+            if ids is not None:
                 for key, what in real.classify_order(op[1], ids, "Hook.functions"):
                     problems.append((i, key, what))
             elif real.expected_chain(op[1]):
@@ -516,20 +664,25 @@ def run_history(ops, with_oracle=True, sweep=True):
     if with_oracle and sweep:
         # final sweep: the order for EVERY class, whatever was touched before
         for c in list(real.order):
+            real.problems_now = []
             ids = real.functions_ids(c)
             if ids is None:
                 if real.expected_chain(c):
                     problems.append((len(ops), "scope-missing", f"K{c}.h raises AttributeError although "
                                      f"registrations are live for it"))
                 continue
-            stats["maxchain"] = max(stats["maxchain"], len(ids))
+            if isinstance(ids, list):
+                stats["maxchain"] = max(stats["maxchain"], len(ids))
             for key, what in real.classify_order(c, ids, "final Hook.functions"):
                 problems.append((len(ops), key, what))
-            v, tr = real.read(c)
+            try:
+                v, tr = real.read(c)
+            except _Runaway:       # (read() catches it; kept for safety)
+                continue
             for key, what in real.check_read(c, v, tr):
                 if key != "runaway-outside-protocol":
                     problems.append((len(ops), key, "final sweep, " + what))
-    return {"rows": rows, "problems": problems, "stats": stats}
+    return result()
 
 
 def first_problem(ops):
@@ -640,17 +793,31 @@ MAX_BARE_WRAPPERS = 4
 MAX_WRAPPERS = 6      # also with defaults: a regression of the re-entrancy marks doubles the work per wrapper
 
 
-def gen_history(rng, max_ops, malformed=False):
+def gen_history(rng, max_ops, malformed=False, same_p=None):
     cls_ops = gen_hierarchy(rng)
     n = len(cls_ops)
     late = [op for op in cls_ops if op[1] > 0 and not any(op[1] in o[2] for o in cls_ops) and rng.random() < 0.25]
     ops = [op for op in cls_ops if op not in late]
     defined = [op[1] for op in ops]
+    bases_of = {op[1]: op[2] for op in cls_ops}
+
+    def ancestors(c):
+        out, todo = set(), list(bases_of[c])
+        while todo:
+            k = todo.pop()
+            if k not in out:
+                out.add(k)
+                todo.extend(bases_of[k])
+        return out
     labels = []           # (label, cls) of adds emitted so far
     live = []
+    tier_of = {}
     n_ops = rng.randrange(4, max_ops + 1)
     nl = 0
     wrapper_p = rng.choice([0.15, 0.35, 0.6])
+    # share of operations that register a function object that is registered already (stream `same`)
+    if same_p is None:
+        same_p = rng.choice([0.0, 0.04, 0.04, 0.12, 0.25])
     # A wrapper that wraps but answers None (outside the documented protocol) makes get_result run the rest of the chain
     # again, and the later wrappers run the earlier ones again: the number of invocations grows like n! in the number of
     # such wrappers.  Half of the histories therefore give every wrapper a default (up to MAX_WRAPPERS wrappers), the other
@@ -658,6 +825,7 @@ def gen_history(rng, max_ops, malformed=False):
     safe = rng.random() < 0.5
     n_wrappers = 0
     wrapper_of = {}
+    max_w = MAX_WRAPPERS if safe else MAX_BARE_WRAPPERS
     while len(ops) < n_ops:
         r = rng.random()
         c = rng.choice(defined)
@@ -666,11 +834,47 @@ def gen_history(rng, max_ops, malformed=False):
             ops.append(op)
             defined.append(op[1])
             continue
+        if labels and rng.random() < same_p:
+            # the SAME function object once more: on the same class (after other registrations), on a subclass while a
+            # base has it, on a base while a subclass has it, in the same or another tier, while the first registration is
+            # live or after it was removed; often as a temporary registration (`with K.h(f): ...`) or followed by the
+            # removal of one of the two registrations
+            lab, owner = rng.choice(live) if live and rng.random() < 0.8 else rng.choice(labels)
+            if wrapper_of[lab] and n_wrappers >= max_w:
+                continue
+            rr = rng.random()
+            related = [k for k in defined if k != owner and (owner in ancestors(k) or k in ancestors(owner))]
+            if rr < 0.35 or (rr < 0.85 and not related):
+                c = owner
+            elif rr < 0.85:
+                c = rng.choice(related)
+            tier = tier_of[lab] if rng.random() < 0.75 else rng.choice(TIERS)
+            n_wrappers += wrapper_of[lab]
+            wrapper_of[nl] = wrapper_of[lab]
+            tier_of[nl] = tier
+            ops.append(("same", nl, c, tier, lab, rng.choice(["call", "call", "deco", "hf"])))
+            labels.append((nl, c))
+            live.append((nl, c))
+            nl += 1
+            rr = rng.random()
+            if rr < 0.5:
+                for _ in range(rng.choice([0, 0, 1, 2])):      # body of the with block
+                    k = rng.choice(defined)
+                    ops.append(rng.choice([("read", k), ("fns", k), ("tc", k)]))
+                if rr < 0.35:       # leave the with block: the NEW registration goes
+                    ops.append(("rm", c, nl - 1, rng.choice(["with", "with", "call"])))
+                    live.remove((nl - 1, c))
+                elif (lab, owner) in live:     # the FIRST registration goes, the new one stays
+                    ops.append(("rm", owner, lab, rng.choice(["with", "call"])))
+                    live.remove((lab, owner))
+                ops.append((rng.choice(["read", "fns"]), rng.choice([c, owner])))
+            continue
         if r < 0.42:
-            w = int(rng.random() < wrapper_p and n_wrappers < (MAX_WRAPPERS if safe else MAX_BARE_WRAPPERS))
+            w = int(rng.random() < wrapper_p and n_wrappers < max_w)
             n_wrappers += w
             wrapper_of[nl] = w
             tier = rng.choice(["first", "normal", "normal", "normal", "last", "both" if malformed else "normal"])
+            tier_of[nl] = "first" if tier == "both" else tier
             how = rng.choice(["call", "call", "deco"])
             op = ("add", nl, c, tier, w, gen_body(rng, w, n, with_default=safe), how)
             labels.append((nl, c))
@@ -689,11 +893,13 @@ def gen_history(rng, max_ops, malformed=False):
                     live.remove((lab, owner))
         elif r < 0.56 and labels:
             lab, _ = rng.choice(labels)
-            if wrapper_of[lab] and n_wrappers >= (MAX_WRAPPERS if safe else MAX_BARE_WRAPPERS):
+            if wrapper_of[lab] and n_wrappers >= max_w:
                 continue
             n_wrappers += wrapper_of[lab]
             wrapper_of[nl] = wrapper_of[lab]
-            op = ("readd", nl, c, rng.choice(TIERS), lab)
+            tier = rng.choice(TIERS)
+            tier_of[nl] = tier
+            op = ("readd", nl, c, tier, lab)
             labels.append((nl, c))
             live.append((nl, c))
             nl += 1
@@ -749,7 +955,40 @@ CORPUS = [
     [("class", 0, [], 0, 0), ("class", 1, [0], 1, 0), ("add", 0, 1, "normal", 0, ("ret", 1), "call"), ("ext", 0),
      ("add", 1, 0, "first", 0, ("ret", 2), "call"), ("add", 2, 0, "normal", 0, ("ret", 3), "call"), ("fns", 1),
      ("read", 1), ("read", 0), ("ext", 1), ("fns", 1)],
+    # one function object registered twice on the same class, another implementation in between: each registration is an
+    # entry of its own (latest first); removing one of the two leaves the other
+    [("class", 0, [], 1, 0), ("add", 0, 0, "normal", 0, ("ret", 1), "call"),
+     ("add", 1, 0, "normal", 0, ("ret", 2), "call"), ("same", 2, 0, "normal", 0, "call"), ("fns", 0), ("read", 0),
+     ("rm", 0, 2, "with"), ("fns", 0), ("read", 0), ("same", 3, 0, "first", 0, "hf"), ("rm", 0, 0, "call"), ("fns", 0)],
+    # one function object on the base class and (temporarily, `with Sub.h(f): ...`) on the subclass: most derived first,
+    # and leaving the block removes the registration of the SUBCLASS only
+    [("class", 0, [], 1, 0), ("class", 1, [0], 0, 0), ("add", 0, 0, "normal", 0, ("ret", 1), "deco"),
+     ("add", 1, 0, "normal", 0, ("ret", 2), "call"), ("same", 2, 1, "normal", 0, "deco"), ("read", 1), ("fns", 1),
+     ("rm", 1, 2, "with"), ("fns", 0), ("read", 0), ("fns", 1)],
+    # one wrapper function registered on base and subclass (two registrations = applied twice for the subclass, once for
+    # the base), the first one removed afterwards
+    [("class", 0, [], 1, 0), ("class", 1, [0], 0, 0), ("add", 0, 0, "normal", 1, ("wrap", 3, None), "call"),
+     ("add", 1, 0, "last", 0, ("ret", 4), "call"), ("same", 2, 1, "normal", 0, "call"), ("read", 1), ("read", 0),
+     ("rm", 0, 0, "call"), ("read", 1), ("read", 0)],
 ]
+
+
+_EV = None
+
+
+def to_function_trace(ans, fid_of):
+    """the model's trace names registrations, the implementation's trace names function objects: map the former"""
+    global _EV
+    if _EV is None:
+        import re
+        _EV = re.compile(r"^(call|enter|exit|cyc|decl)(\d+)$")
+
+    def tok(t):
+        m = _EV.match(t)
+        if m and int(m.group(2)) < len(fid_of):
+            return m.group(1) + str(fid_of[int(m.group(2))])
+        return t
+    return " ".join(tok(t) for t in ans.split(" "))
 
 
 def is_nontrivial(res):
@@ -767,6 +1006,9 @@ def run(ctx):
     for k in range(n_hist):
         malformed = ctx.rng.random() < 0.15
         histories.append((gen_history(ctx.rng, max_ops, malformed), "malformed" if malformed else "valid"))
+    for k in range(max(1, n_hist // 8)):
+        # dense stream: short histories on small hierarchies in which most registrations re-use a function object
+        histories.append((gen_history(ctx.rng, min(max_ops, 14), False, same_p=0.5), "same-function"))
     lean_lines = []
     results = []
     seen_keys = set()
@@ -781,9 +1023,13 @@ def run(ctx):
         ctx.count("read:wrapper-answers-None(outside-protocol)", res["stats"].get("outside", 0))
         if res["stats"].get("runaway"):
             ctx.count("read:aborted-by-harness")
+        for kind in res["stats"].get("same", []):
+            ctx.count("same-function:" + kind)
         for (_, line, ans, _, _) in res["rows"]:
             if ans == "AttributeError":
                 ctx.count("err:AttributeError")
+            if ans.startswith("raised"):
+                ctx.count("err:" + ans.replace(" ", "-"))
             if line.startswith("read") and ans.startswith("_"):
                 ctx.count("read:no-value")
             if line.startswith("read") and "enter" in ans:
@@ -823,6 +1069,8 @@ def run(ctx):
             bad = None
             for k, (i, line, ans, obs_line, obs) in enumerate(res["rows"]):
                 m_ans = out[pos] if pos < len(out) else "<eof>"
+                if line.startswith("read"):
+                    m_ans = to_function_trace(m_ans, res["fid_of"])
                 m_obs = out[pos + 1] if pos + 1 < len(out) else "<eof>"
                 pos += 2
                 if bad is None and (m_ans != ans or m_obs != obs):
